@@ -74,6 +74,14 @@ def run(rep, br, proofs, rng, tier):
     for i in range(n):
         for t in UNOPS:
             cases.append(mk_case("v.u%s.%d" % (t, i), "vmunop", t, P[i]))
+    # the same operations with the operands written as literals (the optimizer folds them)
+    lit_cases = []
+    for i in range(n):
+        for j in range(n):
+            if P[i][0] in ("i", "u", "f", "c", "b", "s", "n") and P[j][0] in ("i", "u", "f", "c", "b", "s", "n"):
+                for t in BINOPS + ["==", "!="]:
+                    lit_cases.append(mk_case("l.%s.%d.%d" % ({"==": "eq", "!=": "ne"}.get(t, t), i, j), "litbinop", t, P[i], P[j]))
+    lit_impl, _ = vlib.run_impl([c["line"] for c in lit_cases], timeout=3000)
     def canon(c, out):
         return out
     impl, model, dis = vlib.correspond(cases, canon=canon, timeout=3000)
@@ -111,6 +119,36 @@ def run(rep, br, proofs, rng, tier):
             if le != (lt or e): fails.append((pair, "a<=b differs from a<b or a==b"))
             if ge != (gt or e): fails.append((pair, "a>=b differs from a>b or a==b"))
             if lt != rgt: fails.append((pair, "a<b differs from b>a"))
+    # literal operands (constant folding) must give what the same operator gives on run-time operands
+    lit_compared = 0
+    for c in lit_cases:
+        out = lit_impl.get(c["id"])
+        if out is None or out == "(noliteral)": continue
+        ref = impl.get("v" + c["id"][1:])
+        if ref is None: continue
+        if c["id"].startswith(("l.eq.", "l.ne.")): ref = "(ok %s)" % ref
+        if ref.startswith("(err"): ref = "(err %s)" % vlib.parse_sexp(ref)[1]
+        if "(f 7ff8" in out and "(f 7ff8" in ref: ref = out   # NaN payloads are not observable
+        lit_compared += 1
+        if out != ref:
+            fails.append((c["line"], "with literal operands the script gives %s, the same operator on run-time operands gives %s" % (out[:200], ref[:200])))
+    # results are values: using an operand again does not change an earlier result
+    pur = []
+    small = []
+    for ty in ("y", "s", "a", "i", "c", "u", "m"):
+        small += [v for v in P if v[0] == ty][:7]
+    for i, a in enumerate(P):
+        if a[0] not in ("y", "a", "s"): continue
+        for j, p_ in enumerate(small):
+            for k, q in enumerate(small[::3]):
+                pur.append(mk_case("p.%d.%d.%d" % (i, j, k), "purity", a, p_, q))
+    pur_impl, _ = vlib.run_impl([c["line"] for c in pur], timeout=3000)
+    for c in pur:
+        out = pur_impl.get(c["id"])
+        if out is None: continue
+        sx = vlib.parse_sexp(out)
+        if vlib.sexp_str(sx[1]) != vlib.sexp_str(sx[2]):
+            fails.append((c["line"], "b := a + p gives %s, but after c := a + q the same b reads %s" % (vlib.sexp_str(sx[1])[:200], vlib.sexp_str(sx[2])[:200])))
     # error kinds on numeric operands
     for c in cases:
         if c["kind"] == "vmbinop" and c["args"][1][0] in NUM and c["args"][2][0] in NUM and c["impl"] and c["impl"].startswith("(err"):
@@ -130,9 +168,9 @@ def run(rep, br, proofs, rng, tier):
             nt += 1
     rep.coverage.update({
         "evaluations": len(cases), "distinct_nontrivial": nt,
-        "rule": "exhaustive over pool x pool x (15 binary operators, ==, !=) through compiled scripts on a VM, plus unary operators and a 5% sample through direct method calls; pool = boundary values of every builtin type + seeded random 64-bit patterns; non-trivial = the operation is not rejected as a plain unsupported-operand TypeError",
+        "rule": "exhaustive over pool x pool x (15 binary operators, ==, !=) through compiled scripts on a VM, plus unary operators and a 5% sample through direct method calls; every scalar pair also with the operands written as literals and compiled with the optimizer (constant folding); for bytes, array and string left operands, b := a + p is compared before and after a further a + q (results do not share storage); pool = boundary values of every builtin type + seeded random 64-bit patterns; non-trivial = the operation is not rejected as a plain unsupported-operand TypeError",
         "samples": [cases[0]["line"], cases[len(cases)//3]["line"], cases[-1]["line"]],
-        "pool_size": n, "law_pairs_checked": law_pairs, "exhaustive": True,
+        "pool_size": n, "law_pairs_checked": law_pairs, "exhaustive": True, "literal_operand_cases_compared": lit_compared, "purity_cases": len(pur),
         "disagreements": len(real_dis), "inconclusive": inconclusive, "oracle_failures": len(fails),
     })
 
